@@ -192,10 +192,9 @@ func init() {
 		}
 		if in.inReplay() {
 			c := args[0].(*sym.Term)
-			if c.IsFalse() {
-				in.abort("violation", label)
+			if !c.IsFalse() {
+				in.assume(c)
 			}
-			in.assume(c)
 			return nil
 		}
 		in.assert(args[0].(*sym.Term), label, msg, fr)
